@@ -29,8 +29,13 @@ Inductive dop :=
 (* observable result: 0 nothing / 1 Add returned nil / 2 Add returned the close error / 3 payload / 4 would block *)
 Inductive dout := DNone | DAddOk | DAddErr | DData (p : list Z) | DEmpty.
 
+(* one iteration of the loop in Add: fails once the queue is closed (repo commit 324cbb2), else
+   pushes if there is room, else parks *)
 Definition add_loop (p : list Z) (q : dq) : dq * dout :=
-  if zlen (sendQ q) <? dgMaxSendQueueLen then
+  if closedQ q then
+    (mkDq (sendQ q) None (sentTok q) (rcvQ q) (closedQ q) (dpanic q)
+          (gAdded q) (gPopped q) (gHandled q) (gAccepted q) (gReceived q), DAddErr)
+  else if zlen (sendQ q) <? dgMaxSendQueueLen then
     (mkDq (sendQ q ++ [p]) None (sentTok q) (rcvQ q) (closedQ q) (dpanic q)
           (gAdded q ++ [p]) (gPopped q) (gHandled q) (gAccepted q) (gReceived q), DAddOk)
   else (* drain the token, park *)
